@@ -389,6 +389,15 @@ static void cb_thread(union sigval v)
 		logev(E_NOTE, 1, v.sival_int, 0, 0);
 	in_cb--;
 }
+/* must never run: the caller's sigevent is overwritten with this right after getaddrinfo_a()
+ * returns (the request has to carry its own copy of what was asked for at submission) */
+static void cb_wrong(union sigval v)
+{
+	in_cb++;
+	logev(E_NOTE, 3, v.sival_int, 0, 0);
+	in_cb--;
+}
+#define WRONG_SLOT 13
 static volatile int sig_bid[MAXT][16];
 static void on_signal(int signo, siginfo_t *si, void *uc)
 {
@@ -441,11 +450,34 @@ static void prep(struct Batch *b)
 		b->sevs.sigev_notify = SIGEV_NONE;
 }
 
+/* One sigevent object per submitter thread, re-used for every call of that thread and
+ * scribbled over as soon as getaddrinfo_a() has returned: getaddrinfo_a(3) does not require the
+ * sigevent to outlive the call. */
+static struct sigevent scratch_sev[MAXT];
+
+static void scribble(struct sigevent *sv, int bid)
+{
+	unsigned r = rnd() % 3;
+	if (r == 0) {
+		memset(sv, 0, sizeof *sv);
+		sv->sigev_notify = SIGEV_THREAD;
+		sv->sigev_notify_function = cb_wrong;
+		sv->sigev_value.sival_int = bid;
+	} else if (r == 1) {
+		memset(sv, 0, sizeof *sv);
+		sv->sigev_notify = SIGEV_SIGNAL;
+		sv->sigev_signo = SIGRTMIN + WRONG_SLOT;
+	} else
+		memset(sv, 0xA5, sizeof *sv);    /* sigev_notify = garbage: matches no mode */
+}
+
 static void submit(struct Batch *b)
 {
 	struct Ev *e;
+	struct sigevent *sv = &scratch_sev[b->t];
 	int rc, k;
 	prep(b);
+	*sv = b->sevs;
 	if (b->sev == 'S')
 		sig_bid[b->t][b->signo - SIGRTMIN] = b->bid;
 	e = claim();
@@ -454,8 +486,9 @@ static void submit(struct Batch *b)
 	e->snap[b->n] = 0;
 	ST(e->ready, 1);
 	in_gaia = 2 + b->bid;
-	rc = getaddrinfo_a(b->mode == 'W' ? GAI_WAIT : GAI_NOWAIT, b->list, b->n, b->sev == 'n' ? NULL : &b->sevs);
+	rc = getaddrinfo_a(b->mode == 'W' ? GAI_WAIT : GAI_NOWAIT, b->list, b->n, b->sev == 'n' ? NULL : sv);
 	in_gaia = 0;
+	scribble(sv, b->bid);
 	logsnap(E_RET, b, rc, 0);
 }
 
@@ -713,7 +746,7 @@ static void run_child(void)
 	sa.sa_sigaction = on_signal;
 	sa.sa_flags = SA_SIGINFO | SA_RESTART;
 	sigemptyset(&sa.sa_mask);
-	for (i = 1; i <= 12; i++) sigaction(SIGRTMIN + i, &sa, NULL);
+	for (i = 1; i <= WRONG_SLOT; i++) sigaction(SIGRTMIN + i, &sa, NULL);
 
 	deadline = now_s() + 4.0;
 	pthread_barrier_init(&start_bar, NULL, nthreads + 1);
